@@ -130,9 +130,9 @@ def run(index, rep, tier):
     for fi in index.methods_of(TREE):
         cfg = None
         for c in calls_in(fi.node):
-            if call_name(c) != "remove_child" or not c.args or not isinstance(c.args[0], ast.Name):
+            if call_name(c) not in ("remove_child", "insert_child", "add_child") or not c.args or not isinstance(c.args[-1], ast.Name):
                 continue
-            arg = c.args[0].id
+            arg = c.args[-1].id
             if arg not in fi.params:
                 continue
             cfg = cfg or cfg_of(fi)
@@ -145,14 +145,17 @@ def run(index, rep, tier):
                 continue
             nstale += 1
 
-            def membership(n):
-                return n.kind == "test" and arg in names_in(n.ast) and any(isinstance(x, ast.Compare) and type(x.ops[0]).__name__ in ("In", "NotIn", "Is", "IsNot") for x in ast.walk(n.ast))
+            def membership(n, c=c):
+                if n.kind == "test" and arg in names_in(n.ast) and any(isinstance(x, ast.Compare) and type(x.ops[0]).__name__ in ("In", "NotIn", "Is", "IsNot") for x in ast.walk(n.ast)):
+                    return True
+                # an earlier remove_child(arg) on the same parent raises unless arg is still its child
+                return any(call_name(x) == "remove_child" and x is not c and x.args and norm(x.args[-1]) == arg and norm(x.func.value) == norm(c.func.value) for x in node_calls(n))
             ok = all(cfg.can_reach(d, lambda n: n is cn, avoid=membership) is None for d in before)
             rep.check(ok, "R03.5", fi.qualname, "%s after %s" % (norm(c), sorted({call_name(x) for d in before for x in node_calls(d) if call_name(x)})), fn_where(fi, c),
-                      "%s: `%s` re-checks that %s still hangs where it was before removing it" % (fi.name, norm(c), arg),
+                      "%s: `%s` re-checks that %s still hangs where it was" % (fi.name, norm(c), arg),
                       "%s calls a node-deleting operation and afterwards `%s` on the node it was given, without checking that the node is still a child: when the operation collapsed/suppressed that very node the call raises 'not listed as a child'"
                       % (fi.qualname, norm(c)))
-    rep.floor("R03.5", "remove_child(<parameter>) after a node-deleting call", 1, nstale)
+    rep.floor("R03.5", "child-list operations on a parameter node after a node-deleting call", 1, nstale)
 
     # ---------------- R03.6
     nloops = 0
@@ -489,8 +492,19 @@ def _honours_flag(index, rep, fi):
             bad.append(n)
     ok = not bad
     if fi.name == "suppress_unifurcations":
-        # incremental maintenance: filters the stored encoding by the deleted edges instead of re-encoding
+        # incremental maintenance: filters the stored encoding by the deleted edges instead of re-encoding;
+        # every splice (with the set present) must record the spliced-out edge's bipartition for deletion
         ok = any(isinstance(n, ast.Assign) and norm(n.targets[0]) == "self.bipartition_encoding" for n in walk_no_nested(fi.node))
+        recs = [n for n in cfg.nodes if any(call_name(c) in ("add", "append") and "to_delete" in norm(c.func.value) for c in node_calls(n))]
+        rid = {n.id for n in recs}
+        present = lambda s_, l_, d_: not (s_.kind == "test" and "to_delete" in norm(s_.ast) and ((compare_parts(s_.ast) or (None, "", None))[1] in ("IsNot", "NotEq") and l_ == "f"))
+        first = None
+        for sn in snodes:
+            eo = cfg.consistent_with(sn, present)
+            if not (cfg.dominated_by(sn, lambda n: n.id in rid, follow_exc=False, edge_ok=eo) or cfg.must_pass(sn, lambda n: n.id in rid, edge_ok=eo)[0]):
+                ok = False
+                first = first or sn
+        bad = [first] if first is not None else []
     first = bad[0] if bad else None
     rep.check(ok, "R03.4", fi.qualname, "structure changed and not re-encoded although requested: %s" % (norm_stmt(first.stmt)[:70] if first is not None else ""),
               fn_where(fi, first.stmt if first is not None else None),
